@@ -23,6 +23,10 @@ PROPS = {
              {"checks": 6000, "timeout": 300},
              {"checks": 25000, "shards": 16, "timeout": 1500},
              assumptions=COMMON_ASSUME),
+    "C04": P("TestC04", "exploration",
+             {"checks": 8000, "timeout": 300},
+             {"checks": 30000, "shards": 16, "timeout": 1800},
+             assumptions=COMMON_ASSUME),
 }
 
 TRUST = "Trusted base: Go runtime, net/http, compress/*, google.golang.org/protobuf, rapid, and the harness's own reference wire layer as the reading of the protocol specs. Generated search: absence of violations is evidence over the explored cases only."
@@ -41,6 +45,11 @@ META = {
     "C03": {
         "technique": "property-based testing (rapid): generated backend scripts and failing requests; strict per-client-form response validator (status, content-type, envelopes, compression, Content-Length, single terminal disposition) as oracle",
         "level_text": "Generated exploration of backend outcomes (OK, error after k messages, trailers-only, bare HTTP status) and of transcoder-originated failures, for all six client forms; every response is parsed by a validator written from the protocol specs.",
+        "level_note": TRUST,
+    },
+    "C04": {
+        "technique": 'property-based testing (rapid): generated error specs and bare HTTP failures relayed through the real Transcoder; independent code tables and per-protocol error parsers as oracle',
+        "level_text": 'Generated exploration of codes (in and out of range), UTF-8 messages, typed details, positions and bare HTTP statuses across all client forms and target configurations; the client-side parse must equal the backend script and the independently written HTTP<->RPC tables.',
         "level_note": TRUST,
     },
 }
